@@ -5,6 +5,7 @@ use std::io::{BufRead, Write};
 mod util;
 mod findrun;
 mod globrun;
+mod oracle;
 mod pathrun;
 mod xread;
 mod xrun;
@@ -55,8 +56,15 @@ fn main() {
         record_main(argv[2..].to_vec());
     }
     let stdin = std::io::stdin();
-    let stdout = std::io::stdout();
-    let mut out = std::io::BufWriter::new(stdout.lock());
+    // results go to the original standard output; fd 1 itself is pointed at /dev/null so that the code
+    // under test (print_help, child processes of -exec) cannot corrupt the protocol
+    let mut out = {
+        use std::os::unix::io::FromRawFd;
+        let saved = unsafe { libc::dup(1) };
+        let devnull = std::fs::OpenOptions::new().write(true).open("/dev/null").unwrap();
+        unsafe { libc::dup2(std::os::unix::io::AsRawFd::as_raw_fd(&devnull), 1) };
+        std::io::BufWriter::new(unsafe { std::fs::File::from_raw_fd(saved) })
+    };
     // keep panics of the code under test quiet; they are reported as "panic" results
     if std::env::var_os("FUV_PANICS").is_none() {
         std::panic::set_hook(Box::new(|_| {}));
@@ -71,6 +79,7 @@ fn main() {
             "xrun" => xrun::handle(&rest),
             "find" => findrun::handle(&rest),
             "glob" => globrun::handle(&rest),
+            "oracle" => oracle::handle(&rest),
             "paths" => pathrun::handle(&rest),
             _ => "badcase".to_string(),
         });
